@@ -342,6 +342,14 @@ def rules(rep, m):
         r4.ok()
 
 
+    # R-C06-6 ------------------------------------------------------------
+    r6 = rep.rule("R-C06-6", "a priority change repositions the waiter in every situation: the routine behind it "
+                  "(cmi_hashheap_reprioritize) sifts the re-keyed entry up whenever it now sorts before its parent and down "
+                  "whenever it sorts after a child - all paths over all scenarios of a small heap model (shared with R-C02-12)",
+                  floor=1)
+    from . import siftrules as _sr6
+    _sr6.check_reposition(rep, r6, m)
+
     # R-C06-5 ------------------------------------------------------------
     r5 = rep.rule("R-C06-5", "cmb_condition_signal, the one place that wakes several waiters of one waiting list in a "
                   "single step, issues the wake-up events in the order of the list's own comparator (priority, then "
